@@ -512,7 +512,7 @@ KERNELS = [
          params=[('n', 'Z')], model='ilshift_ v_self v_n'),
     dict(py='bits.py:Bits._irshift', name='k_irshift_', mode='bits', ret='self', props=['C16'],
          params=[('n', 'Z')], model='irshift_ v_self v_n'),
-    dict(py='bits.py:Bits._reversebytes', name='k_reversebytes', mode='bits', ret='self', props=['C03', 'C18'],
+    dict(py='bits.py:Bits._reversebytes', name='k_reversebytes', mode='bits', ret='self', props=['C03', 'C18', 'C12'],
          params=[('start', 'Z'), ('end', 'Z')], model='reversebytes lsb0 v_self v_start v_end'),
 ]
 
